@@ -215,6 +215,13 @@ impl Block for AuDecode {
                 let data_offset = i.iter().take(4).copied().collect::<Vec<_>>();
                 let data_offset = u32::from_be_bytes(data_offset.try_into().unwrap());
                 i.consume(4);
+                // Magic and offset (8 bytes) are behind us. The fixed part of
+                // the header is 16 more bytes.
+                if data_offset < 24 {
+                    return Err(Error::msg(format!(
+                        ".au data offset {data_offset} is inside the 24 byte header"
+                    )));
+                }
                 self.state = DecodeState::WaitingHeader(data_offset as usize);
             }
             DecodeState::WaitingHeader(data_offset) => {
@@ -239,6 +246,8 @@ impl Block for AuDecode {
                         "AU block only supports one channel currently, got {channels}"
                     )));
                 }
+                // The header (and any annotation) is not audio data.
+                i.consume(header_rest_len);
                 self.state = DecodeState::Data;
             }
             DecodeState::Data => {
